@@ -475,6 +475,8 @@ func main() {
 	dir := flag.String("out", "", "output directory")
 	shard := flag.Int("shard", 0, "shard index")
 	nshard := flag.Int("nshard", 1, "number of shards")
+	only := flag.String("only", "", "conc = only the concurrent linearizability rounds (search for a failing schedule)")
+	flag.IntVar(&concRounds, "rounds", 0, "number of concurrent rounds (0 = tier default)")
 	flag.Parse()
 	if *dir == "" {
 		fmt.Fprintln(os.Stderr, "need -out")
@@ -486,7 +488,9 @@ func main() {
 	case "C04":
 		c04(r, *tier, *shard, *nshard)
 	case "C05":
-		c05(r, *tier, *shard, *nshard)
+		if *only != "conc" {
+			c05(r, *tier, *shard, *nshard)
+		}
 		c05Concurrent(r, *tier, *shard, *nshard)
 	default:
 		os.Exit(2)
